@@ -115,10 +115,10 @@ def _fsync_faults(ctx, rep, base):
     import stat as _stat
     from .. import reader, tablekit
     real = os.fsync
-    for op in ("append", "append2", "delfiles"):
+    for op, which in [(o_, w_) for w_ in ("file", "dir") for o_ in ("append", "append2", "delfiles")]:
         k = 0
         while True:
-            path = os.path.join(base, f"ff-{op}-{k}")
+            path = os.path.join(base, f"ff-{which}-{op}-{k}")
             t = tablekit.create(path)
             with t.new_transaction() as tx:
                 tx.append_data(tablekit.rows(2, start=0))
@@ -130,7 +130,7 @@ def _fsync_faults(ctx, rep, base):
             def failing(fd, seen=seen, k=k):
                 try:
                     st = os.fstat(fd)
-                    regular = _stat.S_ISREG(st.st_mode)
+                    regular = _stat.S_ISREG(st.st_mode) if which == "file" else _stat.S_ISDIR(st.st_mode)
                 except OSError:
                     regular, st = False, None
                 if regular:
@@ -162,11 +162,22 @@ def _fsync_faults(ctx, rep, base):
                 shutil.rmtree(path, ignore_errors=True)
                 break
             rep.evaluations += 1
-            rep.nontrivial(["fsync-fault", op, k])
-            rep.distribution[f"fsync-fault:{op}:{'raise' if raised else 'ok'}"] += 1
+            rep.nontrivial(["fsync-fault", which, op, k])
+            rep.distribution[f"fsync-fault:{which}:{op}:{'raise' if raised else 'ok'}"] += 1
             store = reader.DirStore(path)
             after = reader.pointer(store)
-            case = {"kind": "fsync-fault", "op": op, "failed_fsync_index": k, "raised": raised}
+            case = {"kind": "fsync-fault", "fsync_of": which, "op": op, "failed_fsync_index": k, "raised": raised}
+            if which == "dir":
+                # a failed DIRECTORY fsync comes after its rename took effect: whatever the operation then reports, the pointer must name a
+                # version whose files are all there
+                try:
+                    reader.view(path)
+                except reader.Broken as e:
+                    rep.violate("C16:pointer-names-missing-files-after-a-directory-fsync-failure",
+                                f"{op}: directory fsync #{k} failed (EIO) after its rename; the operation {'raised ' + raised if raised else 'succeeded'}; now: {e}", case)
+                shutil.rmtree(path, ignore_errors=True)
+                k += 1
+                continue
             if after != before:
                 try:
                     reach = reader.reachable(path) | {"metadata/" + after[1], "metadata.version-hint.text"}
@@ -186,13 +197,82 @@ def _fsync_faults(ctx, rep, base):
             k += 1
 
 
+def _write_sizes(ctx, rep, base):
+    """`write_file` itself for payload sizes on both sides of every plausible internal threshold (buffer, block, chunk): all bytes
+    written, THEN an fsync of that descriptor, THEN the rename, THEN the directory fsync — whatever the size"""
+    import stat as _stat
+    from datashard.storage_backend import LocalStorageBackend
+    root = os.path.join(base, "ws")
+    os.makedirs(root)
+    be = LocalStorageBackend(root)
+    real = {n: getattr(os, n) for n in ("write", "fsync", "replace", "rename")}
+    sizes = [0, 1, 4095, 4096, 4097, 65536, (1 << 20) - 1, 1 << 20, (1 << 20) + 1, 3 * (1 << 20) + 17] + ([8 << 20] if ctx.thorough else [])
+    for size in sizes:
+        for api in ("write_file", "write_json"):
+            ev = []
+
+            def w(fd, data):
+                n = real["write"](fd, data)
+                ev.append(("write", fd, n))
+                return n
+
+            def fs(fd):
+                try:
+                    isdir = _stat.S_ISDIR(os.fstat(fd).st_mode)
+                except OSError:
+                    isdir = False
+                r = real["fsync"](fd)
+                ev.append(("fsyncdir" if isdir else "fsync", fd, 0))
+                return r
+
+            def rp(src, dst, *a, **k):
+                ev.append(("rename", None, 0))
+                return real["replace"](src, dst, *a, **k)
+            os.write, os.fsync, os.replace = w, fs, rp
+            try:
+                if api == "write_file":
+                    content = bytes((i * 31 + size) & 0xFF for i in range(min(size, 4096))) * (size // 4096 + 1)
+                    content = content[:size]
+                    be.write_file(f"metadata/f{size}.bin", content)
+                    on_disk = open(os.path.join(root, f"metadata/f{size}.bin"), "rb").read()
+                    same = on_disk == content
+                else:
+                    obj = {"v": "x" * size}
+                    be.write_json(f"metadata/j{size}.json", obj)
+                    import json as _json
+                    same = _json.loads(open(os.path.join(root, f"metadata/j{size}.json"), "rb").read()) == obj
+            finally:
+                os.write, os.fsync, os.replace = real["write"], real["fsync"], real["replace"]
+            rep.evaluations += 1
+            rep.nontrivial(["write-size", api, size])
+            case = {"kind": "write-size", "api": api, "bytes": size}
+            kinds = [e[0] for e in ev]
+            problems = []
+            if not same:
+                problems.append("the file on disk differs from the payload")
+            if "rename" not in kinds:
+                problems.append("no rename")
+            else:
+                ri = kinds.index("rename")
+                writes = [i for i, k_ in enumerate(kinds) if k_ == "write"]
+                fsyncs = [i for i, k_ in enumerate(kinds) if k_ == "fsync" and i < ri]
+                if not fsyncs or (writes and max(w_ for w_ in writes if w_ < ri) > max(fsyncs)):
+                    problems.append("no fsync of the content between the last write and the rename")
+                if "fsyncdir" not in kinds[ri:]:
+                    problems.append("no directory fsync after the rename")
+            for p_ in problems:
+                rep.violate("C16:write-not-flushed-before-rename", f"{api} of {size} bytes: {p_} (events: {kinds[:12]})", case)
+    shutil.rmtree(root, ignore_errors=True)
+
+
 def run(ctx, model_ok):
     rep = Report()
     rep.rule = ("every operation type {create, append, two-append transaction, delete files, expire, delete snapshot, collect} × tables with "
                 "{0,1,3} (thorough: 0–8) prior snapshots, each run in a child process under strace; the Lean judge evaluates EVERY prefix of the "
                 "real syscall trace at or after the pointer's rename; each written file's event sequence is compared with the model's lowering; "
                 "plus every single fsync FAILURE (EIO on the k-th file fsync, all k) of append / two-append / delete commits: the pointer must not "
-                "advance over the file whose flush failed.")
+                "advance over the file whose flush failed; write_file / write_json for payloads of 0 B – 3 MiB around 4 KiB / 64 KiB / 1 MiB: content "
+                "fsynced after the last write and before the rename, directory fsynced after it.")
     base = scratch_dir("c16-")
     try:
         priors = [0, 1, 3] if not ctx.thorough else list(range(0, 9))
@@ -200,6 +280,7 @@ def run(ctx, model_ok):
             for n in (priors if op != "create" else [0]):
                 _trace_and_judge(ctx, rep, op, n, base, model_ok)
         _fsync_faults(ctx, rep, base)
+        _write_sizes(ctx, rep, base)
         rep.exhaustive = True
     finally:
         shutil.rmtree(base, ignore_errors=True)
